@@ -51,6 +51,9 @@ type driver struct {
 	late      int  // >0: runs at the end of a context (disturbs the credential / the login list)
 	needsDB   bool // request names a database (tgt)
 	run       func(c *call) error
+	// RPCs that serve several requests on one stream: two requests on ONE stream, `between` runs
+	// after the first answer was read completely; returns the outcome of each request
+	multi func(c *call, between func()) (error, error)
 }
 
 func (c *call) ctx() (context.Context, context.CancelFunc) { return ctxWith(c.md) }
@@ -773,6 +776,25 @@ func drivers() []driver {
 				err = nil
 			}
 			return err
+		}, multi: func(c *call, between func()) (error, error) {
+			ctx, cancel := c.ctx()
+			defer cancel()
+			s, err := c.e.immu.StreamExportTx(ctx)
+			if err != nil {
+				return err, err
+			}
+			request := func() error {
+				if err := s.Send(&schema.ExportTxRequest{Tx: 1}); err != nil && err != io.EOF {
+					return err
+				}
+				_, _, err := sf.NewMsgReceiver(s).ReadFully() // the whole exported transaction, or the stream's status
+				return err
+			}
+			e1 := request()
+			between()
+			e2 := request()
+			s.CloseSend()
+			return e1, e2
 		}},
 	}
 	return ds
